@@ -66,7 +66,7 @@ var parkedStates = map[string]bool{"chan receive": true, "chan send": true, "sel
 // relevant goroutines: library code or our actors / handler command loops
 func isRelevantStack(s string) bool {
 	return strings.Contains(s, "grpchan/inprocgrpc.") || strings.Contains(s, "grpchan/httpgrpc.") || strings.Contains(s, "main.(*actor).run") ||
-		strings.Contains(s, "main.(*handlerLoop)") || strings.Contains(s, "main.(*memTransport)") || strings.Contains(s, "io.(*pipe)")
+		strings.Contains(s, "main.(*handlerLoop)") || strings.Contains(s, "main.(*memTransport)") || strings.Contains(s, "io.(*pipe)") || strings.Contains(s, "main.(*scriptedBody)") || strings.Contains(s, "main.(*scriptedTransport)")
 }
 
 var stackBuf = make([]byte, 1<<20)
